@@ -35,7 +35,10 @@ def body(c):
         "%d random histories of up to %d calls over 1-2 vnacal_t and <= 3 "
         "vnacal_new_t each, plus %d bulk histories (20-40 handles, one "
         "vnacal_new_t using 10-20 of them, held handles deleted and re-used, "
-        "unknowns solved by two vnacal_new_t on different grids); every public call is one event whose result, "
+        "unknowns solved by two vnacal_new_t on different grids; refused "
+        "multi-cell standards through parameter chains) and 120 shape histories "
+        "(8 types x square / rectangular dimensions x 1..3 frequencies, complex "
+        "z0, every accessor read); every public call is one event whose result, "
         "errno, error-callback record and the full getter projection of every "
         "live vnacal_t must be explained by CalStore!Do; distinct_nontrivial "
         "counts episodes with pairwise different event sequences in which a "
